@@ -203,7 +203,21 @@ fn run_op(line: &str) -> R {
             let phrase = utf8(arg(1)?)?;
             let pass = utf8(arg(2)?)?;
             let m = Mnemonic::from_phrase(&phrase).map_err(e)?;
-            Ok(vec![hx(&m.seed(&pass)[..])])
+            let a = m.seed(&pass);
+            // a value is asked more than once: the seed depends on (words, passphrase) only — not on what this value, or
+            // a clone of it, was asked before
+            let other = format!("{pass}\u{e9}x");
+            let b = m.seed(&other);
+            let b_fresh = Mnemonic::from_phrase(&phrase).map_err(e)?.seed(&other);
+            let c = m.clone().seed(&pass);
+            let d = m.seed("");
+            let d_fresh = Mnemonic::from_phrase(&phrase).map_err(e)?.seed("");
+            let p1 = m.to_phrase();
+            let p2 = m.to_phrase();
+            if b[..] != b_fresh[..] || c[..] != a[..] || d[..] != d_fresh[..] || p1 != p2 {
+                return Ok(vec!["impure:seed-of-a-reused-mnemonic-value-differs-from-a-fresh-one".into()]);
+            }
+            Ok(vec![hx(&a[..])])
         }
         "mn.random" => {
             // mn.random <words> <entropy-hex | fail>
@@ -366,6 +380,16 @@ fn run_op(line: &str) -> R {
             let d = tx.signing_message();
             let sig = key.try_sign(d).map_err(e)?;
             let enc = tx.encode(sig);
+            // the same transaction value asked again, with another signature in between
+            let other = sig_from_args(
+                "0000000000000000000000000000000000000000000000000000000000000007",
+                "0000000000000000000000000000000000000000000000000000000000000009",
+                if sig_fields(&sig)[2] == "1" { "0" } else { "1" },
+            )?;
+            let _ = tx.encode(other);
+            if tx.signing_message()[..] != d[..] || tx.encode(sig) != enc {
+                return Ok(vec!["impure:transaction-value-answers-differently-when-asked-again".into()]);
+            }
             let mut out = vec![hx(&d[..]), hx(enc)];
             out.extend(sig_fields(&sig));
             Ok(out)
@@ -385,6 +409,14 @@ fn run_op(line: &str) -> R {
         "td.hash" => {
             let json = unhex(arg(1)?)?;
             let td = serde_json::from_slice::<TypedData>(&json).map_err(e)?;
+            let again = serde_json::from_slice::<TypedData>(&json).map_err(e)?;
+            if td.signing_message()[..] != again.signing_message()[..]
+                || td.message_hash()[..] != again.message_hash()[..]
+                || td.domain_separator()[..] != again.domain_separator()[..]
+                || td.signing_message()[..] != td.signing_message()[..]
+            {
+                return Ok(vec!["impure:typed-data-answers-differently-when-read-again".into()]);
+            }
             Ok(vec![
                 hx(&td.domain_separator()[..]),
                 hx(&td.message_hash()[..]),
